@@ -323,7 +323,12 @@ func TestC19Tamper(t *testing.T) {
 
 		n := c.Int("corruptions", 1, maxCorr)
 		for i := 1; i <= n; i++ {
-			cr := genCorruption(c, raw, orig, otherAddr)
+			// KeyFile.Write records the file's own path in the document (member "Path") and ReadKeyFile
+			// believes it; every copy is therefore made to state the place it is put at (same length,
+			// so bit positions keep their meaning). The moved-file case itself is in TestC19RoundTrip.
+			wdir, wname, wpath := placeFile(dir, i, nil)
+			rawI := relocate(raw, path, wpath)
+			cr := genCorruption(c, rawI, orig, otherAddr)
 			viaMgr := c.Weighted("route", 3, 1) == 1
 			route := "direct"
 			if viaMgr {
@@ -338,7 +343,15 @@ func TestC19Tamper(t *testing.T) {
 				panic(fmt.Sprintf("harness: benign change %q altered %s", cr.desc, diff))
 			}
 			c.Checkpoint()
-			o := open(c, dir, i, cr.data, pw, viaMgr)
+			if err := os.WriteFile(wpath, cr.data, 0o600); err != nil {
+				panic(err)
+			}
+			var o outcome
+			if viaMgr {
+				o = openViaManager(wdir, wname, pw)
+			} else {
+				o = openDirect(wpath, pw)
+			}
 			c.Step()
 			c.R.Count("corruptions", 1)
 			if o.stage == "Decrypt" || o.stage == "Manager.Unlock" || o.stage == "Manager.GetKeyStore" {
@@ -386,6 +399,16 @@ func TestC19Tamper(t *testing.T) {
 			c.NonTrivial()
 		}
 	})
+}
+
+// relocate rewrites the path a document states about itself.
+func relocate(raw []byte, from, to string) []byte {
+	f, _ := json.Marshal(from)
+	t, _ := json.Marshal(to)
+	if len(f) != len(t) {
+		panic("harness: relocation changes the length")
+	}
+	return bytes.Replace(raw, f, t, 1)
 }
 
 // refAddressOfSeedIndex gives some other valid user address (index 1 of the same wallet).
